@@ -35,7 +35,7 @@ PROPS = {
             {'template': 'units/c05_iter.rs.in', 'modes': [['MODE_OK'], ['MODE_ERR']], 'canary': True},
             {'template': 'units/c05_stdlib_strings.rs.in', 'modes': [['MODE_OK'], ['MODE_ERR']], 'canary': True},
         ],
-        'kani': [],
+        'kani': [{'name': 'c05', 'jobs': 4, 'timeout': 1500}],
         'pins': [
             ('stdlib::str_index', {'s': 'héllo', 'i': 5}), ('stdlib::str_index', {'s': 'héllo', 'i': -6}), ('stdlib::str_index', {'s': 'héllo', 'i': -4}),
             ('stdlib::str_slice', {'s': 'héllo', 'start': None, 'end': None, 'step': 0}),
